@@ -539,3 +539,347 @@ Proof.
   - apply (has_entry_at_iff m i HI) in E. contradiction.
   - reflexivity.
 Qed.
+
+(* ================================================================== *)
+(* Queries                                                             *)
+(* ================================================================== *)
+
+(* ---------- first_index / last_index ---------- *)
+Theorem first_index_spec : forall m,
+    RepInv m -> storage_first_index m = Ok (sp_first (abs m)).
+Proof. intros m HI. exact (first_index_ok m HI). Qed.
+
+Theorem last_index_spec : forall m,
+    RepInv m -> storage_last_index m + 1 = sp_next (abs m).
+Proof. intros m HI. exact (last_index_next m HI). Qed.
+
+(* ---------- term ---------- *)
+Theorem term_spec : forall m i,
+    RepInv m ->
+    storage_term m i =
+    Ok (if i =? snap_index m then SOk (snap_term m)
+        else if i <? first_of m then SErr Compacted
+        else match entry_at m i with
+             | Some e => SOk (e_term e)
+             | None => SErr Unavailable
+             end).
+Proof.
+  intros m i HI. unfold storage_term.
+  destruct (i =? snap_index m) eqn:E0; [reflexivity|].
+  rewrite (first_index_ok m HI). cbn [bind].
+  destruct (i <? first_of m) eqn:E1; [reflexivity|].
+  pose proof (last_index_next m HI) as Hl.
+  destruct (last_index m <? i) eqn:E2.
+  - destruct (entry_at m i) eqn:Ea; [|reflexivity].
+    assert (Hr : first_of m <= i < next_of m) by (apply entry_at_some_iff; eauto).
+    lia.
+  - destruct (proj2 (entry_at_some_iff m i) ltac:(lia)) as [e He].
+    rewrite He. unfold entry_at in He. rewrite E1 in He.
+    unfold idx. rewrite He. reflexivity.
+Qed.
+
+Corollary term_at_snapshot : forall m,
+    RepInv m -> storage_term m (snap_index m) = Ok (SOk (snap_term m)).
+Proof. intros m HI. rewrite (term_spec m _ HI), N.eqb_refl. reflexivity. Qed.
+
+Corollary term_compacted : forall m i,
+    RepInv m -> i < first_of m -> i <> snap_index m ->
+    storage_term m i = Ok (SErr Compacted).
+Proof.
+  intros m i HI H1 H2. rewrite (term_spec m _ HI).
+  destruct (i =? snap_index m) eqn:E0; [lia|].
+  destruct (i <? first_of m) eqn:E1; [reflexivity|lia].
+Qed.
+
+Corollary term_unavailable : forall m i,
+    RepInv m -> next_of m <= i -> storage_term m i = Ok (SErr Unavailable).
+Proof.
+  intros m i HI H. rewrite (term_spec m _ HI).
+  pose proof (first_le_next m). destruct HI as (_ & Hs & _).
+  destruct (i =? snap_index m) eqn:E0; [lia|].
+  destruct (i <? first_of m) eqn:E1; [lia|].
+  destruct (entry_at m i) eqn:Ea; [|reflexivity].
+  assert (Hr : first_of m <= i < next_of m) by (apply entry_at_some_iff; eauto). lia.
+Qed.
+
+Corollary term_entry : forall m i,
+    RepInv m -> first_of m <= i < next_of m ->
+    exists e, entry_at m i = Some e /\ e_index e = i
+              /\ storage_term m i = Ok (SOk (e_term e)).
+Proof.
+  intros m i HI H. destruct (proj2 (entry_at_some_iff m i) H) as [e He].
+  exists e. split; [exact He|]. split; [exact (entry_at_index m i e HI He)|].
+  rewrite (term_spec m _ HI), He. destruct HI as (_ & Hs & _).
+  destruct (i =? snap_index m) eqn:E0; [lia|].
+  destruct (i <? first_of m) eqn:E1; [lia|reflexivity].
+Qed.
+
+(* term never panics on a well-formed store *)
+Corollary term_no_panic : forall m i, RepInv m -> exists r, storage_term m i = Ok r.
+Proof. intros m i HI. rewrite (term_spec m i HI). eauto. Qed.
+
+(* The Storage doc promises the term of first_index()-1 ("retained for matching
+   purposes"); after a compaction past snapshot_metadata.index + 1 MemStorage
+   answers Compacted for it. *)
+Lemma term_before_first_after_compact : forall m,
+    RepInv m -> snap_index m + 1 < first_of m ->
+    storage_term m (first_of m - 1) = Ok (SErr Compacted).
+Proof. intros m HI H. apply term_compacted; [exact HI|lia|lia]. Qed.
+
+(* ---------- entries ---------- *)
+Lemma nth_error_firstn_lt : forall {A} (l : list A) n k,
+    (k < n)%nat -> nth_error (firstn n l) k = nth_error l k.
+Proof.
+  induction l as [|x l IH]; intros n k H.
+  - rewrite firstn_nil. reflexivity.
+  - destruct n; [lia|]. destruct k; cbn [firstn nth_error]; [reflexivity|].
+    apply IH. lia.
+Qed.
+
+Lemma nth_error_skipn' : forall {A} (l : list A) n k,
+    nth_error (skipn n l) k = nth_error l (n + k).
+Proof.
+  induction l as [|x l IH]; intros n k.
+  - rewrite skipn_nil. destruct k, n; reflexivity.
+  - destruct n; cbn [skipn Nat.add nth_error]; [reflexivity|]. apply IH.
+Qed.
+
+Lemma In_firstn : forall {A} (l : list A) n e, In e (firstn n l) -> In e l.
+Proof.
+  induction l as [|x l IH]; intros n e H.
+  - rewrite firstn_nil in H. exact H.
+  - destruct n; cbn [firstn] in H; [contradiction|].
+    destruct H as [H|H]; [left; exact H|right; eapply IH; exact H].
+Qed.
+
+Lemma In_skipn : forall {A} (l : list A) n e, In e (skipn n l) -> In e l.
+Proof.
+  induction l as [|x l IH]; intros n e H.
+  - rewrite skipn_nil in H. exact H.
+  - destruct n; cbn [skipn] in H; [exact H|]. right. eapply IH; exact H.
+Qed.
+
+(* the entries with indexes lo .. hi-1 *)
+Definition range_of (m : mem) (lo hi : N) : list entry :=
+  firstn (N.to_nat (hi - lo)) (skipn (N.to_nat (lo - first_of m)) (entries m)).
+
+Lemma range_of_spec : forall m lo hi,
+    RepInv m -> first_of m <= lo -> lo <= hi -> hi <= next_of m ->
+    contiguous_from lo (range_of m lo hi)
+    /\ length (range_of m lo hi) = N.to_nat (hi - lo)
+    /\ (forall i, lo <= i < hi ->
+          nth_error (range_of m lo hi) (N.to_nat (i - lo)) = entry_at m i).
+Proof.
+  intros m lo hi (HIc & HIs & HIb) H1 H2 H3. unfold range_of, next_of in *.
+  split; [|split].
+  - apply contig_firstn.
+    replace lo with (first_of m + N.of_nat (N.to_nat (lo - first_of m))) at 1 by lia.
+    apply contig_skipn. exact HIc.
+  - rewrite firstn_length, skipn_length. lia.
+  - intros i Hi. rewrite nth_error_firstn_lt by lia.
+    rewrite nth_error_skipn'. unfold entry_at.
+    destruct (i <? first_of m) eqn:E; [lia|].
+    f_equal. lia.
+Qed.
+
+Lemma range_of_incl : forall m lo hi e, In e (range_of m lo hi) -> In e (entries m).
+Proof.
+  intros m lo hi e H. unfold range_of in H.
+  apply In_firstn in H. eapply In_skipn; exact H.
+Qed.
+
+Lemma entries_eq : forall m lo hi max ctx,
+    RepInv m -> entries m <> [] ->
+    first_of m <= lo -> lo <= hi -> hi <= next_of m ->
+    trig_log m && can_async ctx = false ->
+    storage_entries m lo hi max ctx = Ok (m, SOk (limit_size (range_of m lo hi) max)).
+Proof.
+  intros m lo hi max ctx HI Hne H1 H2 H3 Ht.
+  unfold storage_entries. rewrite (first_index_ok m HI). cbn [bind].
+  pose proof (last_index_next m HI) as Hl. pose proof (last_index_lt_max m HI) as Hm.
+  destruct (lo <? first_of m) eqn:E1; [lia|].
+  destruct (last_index m =? u64_max) eqn:E2; [lia|].
+  destruct (last_index m + 1 <? hi) eqn:E3; [lia|].
+  rewrite Ht.
+  destruct (entries m) as [|e0 l] eqn:El; [congruence|].
+  rewrite (entries_head_index m e0 l El).
+  destruct (hi <? first_of m) eqn:E4; [lia|].
+  destruct (N.to_nat (hi - first_of m) <? N.to_nat (lo - first_of m))%nat eqn:E5; [lia|].
+  destruct (length (e0 :: l) <? N.to_nat (hi - first_of m))%nat eqn:E6.
+  { unfold next_of in H3. rewrite El in H3. lia. }
+  unfold range_of. rewrite El.
+  replace (N.to_nat (hi - first_of m) - N.to_nat (lo - first_of m))%nat
+    with (N.to_nat (hi - lo)) by lia.
+  reflexivity.
+Qed.
+
+(* Main read theorem: for first <= lo <= hi <= last+1 on a store holding at
+   least one entry, entries returns (a) a prefix of the entries lo..hi-1,
+   (b) non-empty when lo < hi, (c) within max unless a single entry, and maximal:
+   the next entry would exceed max; the whole range when max is None/NO_LIMIT or
+   the range has at most one entry. *)
+Theorem entries_spec : forall m lo hi max ctx,
+    RepInv m -> entries m <> [] ->
+    first_of m <= lo -> lo <= hi -> hi <= next_of m ->
+    trig_log m && can_async ctx = false ->
+    exists r, storage_entries m lo hi max ctx = Ok (m, SOk r)
+      /\ (exists k, (k <= length (range_of m lo hi))%nat /\ r = firstn k (range_of m lo hi))
+      /\ (lo < hi -> r <> [])
+      /\ (max = None \/ max = Some NO_LIMIT \/ hi <= lo + 1 -> r = range_of m lo hi)
+      /\ (forall mx, max = Some mx ->
+            (mx <> NO_LIMIT -> total_size entry_size r <= mx \/ length r = 1%nat)
+            /\ ((length r < length (range_of m lo hi))%nat ->
+                mx < total_size entry_size (firstn (S (length r)) (range_of m lo hi)))).
+Proof.
+  intros m lo hi max ctx HI Hne H1 H2 H3 Ht.
+  exists (limit_size (range_of m lo hi) max).
+  split; [apply entries_eq; assumption|].
+  destruct (range_of_spec m lo hi HI H1 H2 H3) as (Hrc & Hrl & _).
+  destruct (limit_size_spec entry_size (range_of m lo hi) max) as (Hp & Hn & Hu & Hs).
+  split; [exact Hp|]. split.
+  - intros Hlt. apply Hn. intros Hnil. rewrite Hnil in Hrl. cbn in Hrl. lia.
+  - split.
+    + intros [H|[H|H]]; apply Hu; [left; exact H|right; left; exact H|right; right; lia].
+    + intros mx Hmx. apply Hs; [|exact Hmx].
+      unfold head_pos. destruct (range_of m lo hi) as [|e t] eqn:Er; [exact I|].
+      apply (stored_entry_size_pos m e HI).
+      apply (range_of_incl m lo hi). rewrite Er. left; reflexivity.
+Qed.
+
+Lemma entries_compacted : forall m lo hi max ctx,
+    RepInv m -> lo < first_of m ->
+    storage_entries m lo hi max ctx = Ok (m, SErr Compacted).
+Proof.
+  intros m lo hi max ctx HI H. unfold storage_entries.
+  rewrite (first_index_ok m HI). cbn [bind].
+  destruct (lo <? first_of m) eqn:E; [reflexivity|lia].
+Qed.
+
+Lemma entries_oob_panics : forall m lo hi max ctx,
+    RepInv m -> first_of m <= lo -> next_of m < hi ->
+    storage_entries m lo hi max ctx = Panic site_entries_oob.
+Proof.
+  intros m lo hi max ctx HI H1 H2. unfold storage_entries.
+  rewrite (first_index_ok m HI). cbn [bind].
+  pose proof (last_index_next m HI) as Hl. pose proof (last_index_lt_max m HI) as Hm.
+  destruct (lo <? first_of m) eqn:E1; [lia|].
+  destruct (last_index m =? u64_max) eqn:E2; [lia|].
+  destruct (last_index m + 1 <? hi) eqn:E3; [reflexivity|lia].
+Qed.
+
+Lemma entries_log_unavailable : forall m lo hi max ctx,
+    RepInv m -> first_of m <= lo -> hi <= next_of m ->
+    trig_log m && can_async ctx = true ->
+    storage_entries m lo hi max ctx
+    = Ok (set_ge_ctx m (Some ctx), SErr LogTemporarilyUnavailable).
+Proof.
+  intros m lo hi max ctx HI H1 H2 Ht. unfold storage_entries.
+  rewrite (first_index_ok m HI). cbn [bind].
+  pose proof (last_index_next m HI) as Hl. pose proof (last_index_lt_max m HI) as Hm.
+  destruct (lo <? first_of m) eqn:E1; [lia|].
+  destruct (last_index m =? u64_max) eqn:E2; [lia|].
+  destruct (last_index m + 1 <? hi) eqn:E3; [lia|].
+  rewrite Ht. reflexivity.
+Qed.
+
+(* The core.entries[0] panic: a store that holds no entry (fresh, or right after
+   apply_snapshot, or emptied by compact(last+1)) panics on EVERY read that
+   passes the two range checks, in particular on the empty range
+   entries(first, first), which on a non-empty store returns Ok([]). *)
+Lemma entries_empty_range_panics : forall m lo hi max ctx,
+    RepInv m -> entries m = [] ->
+    first_of m <= lo -> hi <= first_of m ->
+    trig_log m && can_async ctx = false ->
+    storage_entries m lo hi max ctx = Panic site_entries_entries0.
+Proof.
+  intros m lo hi max ctx HI He H1 H2 Ht. unfold storage_entries.
+  rewrite (first_index_ok m HI). cbn [bind].
+  pose proof (last_index_next m HI) as Hl. pose proof (last_index_lt_max m HI) as Hm.
+  rewrite (entries_nil_next m He) in Hl.
+  destruct (lo <? first_of m) eqn:E1; [lia|].
+  destruct (last_index m =? u64_max) eqn:E2; [lia|].
+  destruct (last_index m + 1 <? hi) eqn:E3; [lia|].
+  rewrite Ht, He. reflexivity.
+Qed.
+
+(* a reversed range on a non-empty store fails in the index arithmetic *)
+Lemma entries_reversed_panics : forall m lo hi max ctx,
+    RepInv m -> entries m <> [] ->
+    first_of m <= lo -> hi < lo -> hi <= next_of m ->
+    trig_log m && can_async ctx = false ->
+    storage_entries m lo hi max ctx =
+    Panic (if hi <? first_of m then site_entries_hi_underflow else site_entries_slice_order).
+Proof.
+  intros m lo hi max ctx HI Hne H1 H2 H3 Ht. unfold storage_entries.
+  rewrite (first_index_ok m HI). cbn [bind].
+  pose proof (last_index_next m HI) as Hl. pose proof (last_index_lt_max m HI) as Hm.
+  destruct (lo <? first_of m) eqn:E1; [lia|].
+  destruct (last_index m =? u64_max) eqn:E2; [lia|].
+  destruct (last_index m + 1 <? hi) eqn:E3; [lia|].
+  rewrite Ht.
+  destruct (entries m) as [|e0 l] eqn:El; [congruence|].
+  rewrite (entries_head_index m e0 l El).
+  destruct (hi <? first_of m) eqn:E4; [reflexivity|].
+  destruct (N.to_nat (hi - first_of m) <? N.to_nat (lo - first_of m))%nat eqn:E5; [reflexivity|lia].
+Qed.
+
+(* Complete classification of the panics of entries on a well-formed store. *)
+Theorem entries_panics_iff : forall m lo hi max ctx,
+    RepInv m ->
+    ((exists s, storage_entries m lo hi max ctx = Panic s)
+     <-> first_of m <= lo
+         /\ (next_of m < hi
+             \/ (trig_log m && can_async ctx = false
+                 /\ (entries m = [] \/ hi < lo)))).
+Proof.
+  intros m lo hi max ctx HI.
+  destruct (lo <? first_of m) eqn:E1.
+  { rewrite (entries_compacted m lo hi max ctx HI ltac:(lia)).
+    split; [intros [s Hs]; discriminate|intros [H _]; lia]. }
+  destruct (next_of m <? hi) eqn:E2.
+  { rewrite (entries_oob_panics m lo hi max ctx HI ltac:(lia) ltac:(lia)).
+    split; [intros _; split; [lia|left; lia]|eauto]. }
+  destruct (trig_log m && can_async ctx) eqn:Et.
+  { rewrite (entries_log_unavailable m lo hi max ctx HI ltac:(lia) ltac:(lia) Et).
+    split; [intros [s Hs]; discriminate|].
+    intros [_ [H|[H _]]]; [lia|discriminate]. }
+  destruct (entries m) as [|e0 l] eqn:El.
+  { assert (Hn : next_of m = first_of m) by (apply entries_nil_next; exact El).
+    rewrite (entries_empty_range_panics m lo hi max ctx HI El ltac:(lia) ltac:(lia) Et).
+    split; [intros _; split; [lia|right; split; [reflexivity|left; reflexivity]]|eauto]. }
+  assert (Hne : entries m <> []) by (rewrite El; discriminate).
+  destruct (hi <? lo) eqn:E3.
+  { rewrite (entries_reversed_panics m lo hi max ctx HI Hne ltac:(lia) ltac:(lia) ltac:(lia) Et).
+    split; [intros _; split; [lia|right; split; [reflexivity|right; lia]]|eauto]. }
+  rewrite (entries_eq m lo hi max ctx HI Hne ltac:(lia) ltac:(lia) ltac:(lia) Et).
+  split; [intros [s Hs]; discriminate|].
+  intros [_ [H|[_ [H|H]]]]; [lia|discriminate|lia].
+Qed.
+
+(* exactly when the entries[0] site fires *)
+Theorem entries_entries0_iff : forall m lo hi max ctx,
+    RepInv m ->
+    (storage_entries m lo hi max ctx = Panic site_entries_entries0
+     <-> entries m = [] /\ first_of m <= lo /\ hi <= first_of m
+         /\ trig_log m && can_async ctx = false).
+Proof.
+  intros m lo hi max ctx HI. split.
+  - intros Hp.
+    destruct (lo <? first_of m) eqn:E1.
+    { rewrite (entries_compacted m lo hi max ctx HI ltac:(lia)) in Hp. discriminate. }
+    destruct (next_of m <? hi) eqn:E2.
+    { rewrite (entries_oob_panics m lo hi max ctx HI ltac:(lia) ltac:(lia)) in Hp.
+      discriminate. }
+    destruct (trig_log m && can_async ctx) eqn:Et.
+    { rewrite (entries_log_unavailable m lo hi max ctx HI ltac:(lia) ltac:(lia) Et) in Hp.
+      discriminate. }
+    destruct (entries m) as [|e0 l] eqn:El.
+    { pose proof (entries_nil_next m El). repeat split; lia. }
+    assert (Hne : entries m <> []) by (rewrite El; discriminate).
+    destruct (hi <? lo) eqn:E3.
+    { rewrite (entries_reversed_panics m lo hi max ctx HI Hne ltac:(lia) ltac:(lia) ltac:(lia) Et) in Hp.
+      destruct (hi <? first_of m); discriminate. }
+    rewrite (entries_eq m lo hi max ctx HI Hne ltac:(lia) ltac:(lia) ltac:(lia) Et) in Hp.
+    discriminate.
+  - intros (He & H1 & H2 & Ht). apply entries_empty_range_panics; assumption.
+Qed.
